@@ -266,6 +266,8 @@ impl Zone {
         }
 
         if other.soa.is_some() {
+            // the other zone's SOA RR (held in its records) replaces ours
+            self.records.this.remove(&RecordType::SOA);
             self.soa = other.soa;
         }
 
